@@ -394,6 +394,17 @@ func checkC19(c *mc.Ctx) {
 		st := &Stream{Name: "long-start-less-run", Pkts: ps, Bytes: EncodePkts(ps)}
 		c19Parsers(c, st, ps)
 	}
+	// units far bigger than anything a buffer is sized for at first (a 20000-byte and a 70000-byte video unit, a small
+	// one behind them): what a PacketsParser was handed stays what it was
+	{
+		cc := uint8(2)
+		var ps []*ref.Pkt
+		for k, n := range []int{20000, 70000, 300} {
+			ps = append(ps, Packetize(PESUnit(0x100, 0xe0, pesPayload(180+k, n, c.Seed), uint64(k+1), false), nil, &cc, false)...)
+		}
+		st := &Stream{Name: "big-units", Pkts: ps, Bytes: EncodePkts(ps)}
+		c19Parsers(c, st, ps)
+	}
 	// long runs of skipped packets: every run length 0..110 at four start positions in a stream of 120 single-packet
 	// units on two PIDs - however many packets are skipped in a row, the next one that is not skipped is returned
 	{
@@ -902,7 +913,7 @@ func checkC20(c *mc.Ctx) {
 		depth = 8
 	}
 	streams := c19Streams(c.Seed)
-	streams = append(streams, &Stream{Name: "big-payloads", Bytes: BigPayloadStream(c.Seed)}, MultiSectionStream(c.Seed), NetworkPIDStream(c.Seed, 0x10), NetworkPIDStream(c.Seed, 0x50), HeadlessStream(c.Seed), BrokenSectionStream(c.Seed), ESTypesStream(c.Seed), TSIDChangeStream(c.Seed), PMTPIDTakeoverStream(c.Seed), PCRInsideUnitsStream(c.Seed))
+	streams = append(streams, &Stream{Name: "big-payloads", Bytes: BigPayloadStream(c.Seed)}, MultiSectionStream(c.Seed), NetworkPIDStream(c.Seed, 0x10), NetworkPIDStream(c.Seed, 0x50), HeadlessStream(c.Seed), BrokenSectionStream(c.Seed), ESTypesStream(c.Seed), TSIDChangeStream(c.Seed), PMTPIDTakeoverStream(c.Seed), PCRInsideUnitsStream(c.Seed), PayloadlessFirstStream(c.Seed))
 	for _, st0 := range streams {
 		for _, cfg := range []struct {
 			auto bool
@@ -1149,6 +1160,26 @@ func PCRInsideUnitsStream(seed int64) *Stream {
 		ps = append(ps, u[2:]...)
 	}
 	return &Stream{Name: "pcr-inside-units", Pkts: ps, Bytes: EncodePkts(ps)}
+}
+
+// PayloadlessFirstStream: the first packet of every PID - the PMT PID and the SDT PID included - is a packet
+// without payload (adaptation field only, a PCR in it) that arrives before the PAT; tables and video units follow,
+// interleaved.
+func PayloadlessFirstStream(seed int64) *Stream {
+	var ps []*ref.Pkt
+	cc := map[uint16]*uint8{0: new(uint8), 0x1000: new(uint8), 0x11: new(uint8), 0x100: new(uint8)}
+	*cc[0x1000], *cc[0x11], *cc[0x100] = 5, 9, 13
+	for _, pid := range []uint16{0x1000, 0x11, 0x100} {
+		// (a packet without payload carries the counter of the PID's previous payload packet: one less than the next one)
+		ps = append(ps, &ref.Pkt{PID: pid, HasAF: true, AF: &ref.AF{PCR: &ref.PCR{Base: uint64(pid)}, Stuffing: 176}, CC: (*cc[pid] + 15) & 0xf})
+	}
+	ps = append(ps, Packetize(PSIUnit(0, 0, [][]byte{SecPAT(modelPAT(1, 0x1000), ref.SecHdr{CNI: true})}, nil), nil, cc[0], true)...)
+	for k := 0; k < 3; k++ {
+		ps = append(ps, Packetize(PSIUnit(0x1000, 0, [][]byte{SecPMT(modelPMT(1, 0x100, 1+k), ref.SecHdr{CNI: true, Version: uint8(k)})}, nil), nil, cc[0x1000], true)...)
+		ps = append(ps, Packetize(PESUnit(0x100, 0xe0, pesPayload(190+k, 100+k, seed), uint64(k+1), false), nil, cc[0x100], false)...)
+		ps = append(ps, Packetize(PSIUnit(0x11, 0, [][]byte{SecSDT(modelSDT(1+k), ref.SecHdr{CNI: true, Version: uint8(k)})}, nil), nil, cc[0x11], true)...)
+	}
+	return &Stream{Name: "payloadless-packets-first", Pkts: ps, Bytes: EncodePkts(ps)}
 }
 
 // VersionToggleStream: tables that change over time and come back to a version number they had before with
